@@ -57,7 +57,7 @@ func (g *Gen) GenFunc(key string) (res *FnResult) {
 	for _, b := range fn.Blocks {
 		res.InstrCount += len(b.Instrs)
 	}
-	st := &State{g: g, reach: "true", heaps: map[string]string{}, armed: map[*ssa.Defer]string{}}
+	st := &State{g: g, reach: "true", heaps: map[string]string{}, armed: map[*ssa.Defer]string{}, merges: map[string][]mergeBranch{}}
 	c.next0 = c.declare("next0", SInt)
 	c.emit(fmt.Sprintf("(assert (>= %s 1))", c.next0))
 	c.emit(fmt.Sprintf("(assert (= wfnext@0 %s))", c.next0))
@@ -104,6 +104,12 @@ func (g *Gen) GenFunc(key string) (res *FnResult) {
 		env := fr.specEnv(r.st, nil, nil)
 		resultEnv(env, fn, r.vals)
 		for i, en := range con.Ensures {
+			if fgs := frameGoals(env, en.Expr); fgs != nil {
+				for _, goal := range fgs {
+					c.oblige(r.st, path, fmt.Sprintf("post%d@ret%d", i+1, j+1), goal, en.Text, r.pos)
+				}
+				continue
+			}
 			goal := env.Eval(en.Expr).Term
 			c.oblige(r.st, path, fmt.Sprintf("post%d@ret%d", i+1, j+1), goal, en.Text, r.pos)
 		}
@@ -119,8 +125,9 @@ func (g *Gen) GenFunc(key string) (res *FnResult) {
 				}
 			}
 			if ex != nil {
-				goal := g.unchangedAll(fr.entry, r.st, ex)
-				c.oblige(r.st, path, fmt.Sprintf("frame:modifies@ret%d", j+1), goal, "only the heaps named in modifies change on pre-existing objects", r.pos)
+				for _, goal := range chunkFrame(g.unchangedAll(fr.entry, r.st, ex)) {
+					c.oblige(r.st, path, fmt.Sprintf("frame:modifies@ret%d", j+1), goal, "only the heaps named in modifies change on pre-existing objects", r.pos)
+				}
 			}
 		}
 	}
